@@ -2,6 +2,7 @@ package eventbus
 
 import (
 	"encoding/json"
+	"sync"
 )
 
 type c16Edge struct{ f, t string }
@@ -152,4 +153,46 @@ func harnessC16ApplyTerminates() {
 	start := vStr("stored-type")
 	_, _, _ = r.apply(json.RawMessage(`{}`), start)
 	vCover("applied")
+}
+
+//verif:entry property=C16 tier=both bounds="two goroutines each registering one edge over 3 names concurrently on a registry with one optional prior edge; every interleaving within the preemption bound; the resulting graph must be acyclic and hold exactly the accepted edges" cover="raced" preempt_quick=2 preempt_thorough=3 race=on
+func harnessC16ConcurrentRegister() {
+	names := []string{"A", "B", "C"}
+	bus := New()
+	var edges []c16Edge
+	if vBool() {
+		f, t := names[vPick(3)], names[vPick(3)]
+		if RegisterUpcastFunc(bus, f, t, c16Dummy) == nil {
+			edges = append(edges, c16Edge{f, t})
+		}
+	}
+	f1, t1 := names[vPick(3)], names[vPick(3)]
+	f2, t2 := names[vPick(3)], names[vPick(3)]
+	var e1, e2 error
+	var wg sync.WaitGroup
+	wg.Add(2)
+	go func() {
+		defer wg.Done()
+		e1 = RegisterUpcastFunc(bus, f1, t1, c16Dummy)
+	}()
+	go func() {
+		defer wg.Done()
+		e2 = RegisterUpcastFunc(bus, f2, t2, c16Dummy)
+	}()
+	wg.Wait()
+	if e1 == nil {
+		edges = append(edges, c16Edge{f1, t1})
+	}
+	if e2 == nil {
+		edges = append(edges, c16Edge{f2, t2})
+	}
+	vAssert(c16Count(bus.upcastRegistry) == len(edges), "registry-holds-exactly-the-accepted-edges")
+	for _, e := range edges {
+		vAssert(!c16Reaches(edges, e.t, e.f), "racing-registrations-never-create-a-cycle")
+	}
+	// a registration that was valid on its own and does not conflict with the other one is accepted
+	if f1 != t1 && !c16Reaches(edges, t1, f1) {
+		vAssert(e1 == nil || c16Reaches(append(edges, c16Edge{f1, t1}), t1, f1), "valid-registration-accepted")
+	}
+	vCover("raced")
 }
